@@ -52,11 +52,19 @@ def run_one(k, slot, rel, kind, lineno, old, new, props):
     copy = os.path.join(SCRATCH, "slot%d" % slot)
     sh("git checkout -q -- . ", copy)
     p = os.path.join(copy, rel)
-    lines = open(p).read().split("\n")
-    if lines[lineno] != old:
-        return dict(k=k, status="skipped")
-    lines[lineno] = new
-    open(p, "w").write("\n".join(lines))
+    if old is None:
+        # AST-level rewrite: `lineno` is the site index of `kind`
+        r = subprocess.run([os.path.join(VERIF, "bin", "rewrite"), "-file", p, "-kind", kind, "-n", str(lineno)], capture_output=True, text=True)
+        if r.returncode != 0:
+            return dict(k=k, status="skipped")
+        open(p, "w").write(r.stdout)
+        old, new = "%s site %d" % (kind, lineno), r.stderr.strip().replace(copy + "/", "")
+    else:
+        lines = open(p).read().split("\n")
+        if lines[lineno] != old:
+            return dict(k=k, status="skipped")
+        lines[lineno] = new
+        open(p, "w").write("\n".join(lines))
     b = sh("go build ./... && go test -vet=off -count=1 ./... >/dev/null 2>&1", copy)
     if b.returncode != 0:
         sh("git checkout -q -- . ", copy)
@@ -83,11 +91,26 @@ def main():
         sh(["git", "-C", "/repo", "worktree", "add", "--detach", "-f", os.path.join(SCRATCH, "slot%d" % s), "HEAD"], "/")
     files = [f for f in subprocess.check_output(["git", "-C", "/repo", "ls-files", "*.go"], text=True).split() if not f.endswith("_test.go") and not f.startswith("cmd/togo") and not f.startswith("internal")]
     cands = []
-    for f in files:
-        for (kind, i, old, new) in candidates(f, open(os.path.join("/repo", f)).read()):
-            cands.append((f, kind, i, old, new))
-    random.shuffle(cands)
-    cands = cands[:n]
+    if os.environ.get("EQUIV_MODE", "ast") == "text":
+        for f in files:
+            for (kind, i, old, new) in candidates(f, open(os.path.join("/repo", f)).read()):
+                cands.append((f, kind, i, old, new))
+        random.shuffle(cands)
+        cands = cands[:n]
+    else:
+        sh("cd selftest/rewrite && go build -o ../../bin/rewrite .", VERIF)
+        bykind = {}
+        for f in files:
+            out = subprocess.run([os.path.join(VERIF, "bin", "rewrite"), "-file", os.path.join("/repo", f), "-list"], capture_output=True, text=True).stdout
+            for line in out.splitlines():
+                kind, cnt = line.split()
+                for i in range(int(cnt)):
+                    bykind.setdefault(kind, []).append((f, kind, i, None, None))
+        weights = {"rename": 0.28, "tmpret": 0.22, "flip": 0.2, "swap": 0.12, "ifelse": 0.06, "incr": 0.06, "opassign": 0.06}
+        for kind, lst in bykind.items():
+            random.shuffle(lst)
+            cands += lst[:max(1, int(n * weights.get(kind, 0.05)))]
+        random.shuffle(cands)
     print("%d candidate rewrites out of %d files" % (len(cands), len(files)))
     results = []
     try:
